@@ -23,6 +23,10 @@ var T *testing.T
 // panic (it names the stuck goroutines' state) is returned as leak. Any other
 // panic of f itself is returned as pan.
 func Bubble(f func()) (leak, pan string) {
+	// every bubble is under the hang guard, whether or not the caller registered a better description of the case
+	if _, file, line, ok := runtime.Caller(1); ok {
+		defer GuardEnter(fmt.Sprintf("an execution started at %s:%d", filepath.Base(file), line))()
+	}
 	defer func() {
 		if p := recover(); p != nil {
 			leak = fmt.Sprint(p)
